@@ -176,7 +176,7 @@ def _run(ctx):
         raise V.Inconclusive("the exhaustive model run did not complete")
     # behaviours for the driver
     simdir = ctx.sub("sim")
-    nsim = 24 if quick else 120
+    nsim = 20 if quick else 120
     rs = V.tlc(ctx, "MC_ZCkpt", "MC_ZCkpt_sim.cfg", workers=1, timeout=300, tag="simulate",
                simulate="file=%s,num=%d" % (os.path.join(simdir, "b"), nsim), depth=60, seed=ctx.seed)
     nfiles = len([f for f in os.listdir(simdir) if f.startswith("b_")])
@@ -188,7 +188,7 @@ def _run(ctx):
     # ---------------------------------------------------------------- (B) the code
     seed = str(ctx.seed)
     sim = ["-sim", os.path.join(simdir, "b")]
-    n = dict(general=20, mem=60, iso=8) if quick else dict(general=150, mem=500, iso=40)
+    n = dict(general=16, mem=50, iso=8) if quick else dict(general=150, mem=500, iso=40)
     stages = [
         # name, engine, args, strict
         ("pebble-general", "pebble", sim + ["-random", str(n["general"]), "-len", "30", "-seed", seed], True),
